@@ -8,7 +8,7 @@ the layers directory of C01 (`Model/LayerStore.lean`, `delete_layer` as repaired
 reader/writer of C03/C10 (`Model/EnvDir.lean`, reader as repaired for D2).
 Spec: `Spec/TraitSpec.lean` — `tStepOk`, the executable statement of the property for one step (decision table for the
 callback log, on-disk layer = returned `LayerResult` after create/update, = pre-state with refreshed types after keep,
-returned layer data = what the directory on disk means as an environment, other layers untouched). The same `tStepOk`
+= pre-state with a requested metadata replacement carried out after a failing strategy/update callback, returned layer data = what the directory on disk means as an environment, other layers untouched). The same `tStepOk`
 judges every step of the real code's histories in the correspondence.
 
 Hypotheses, all explicit: `TOpOk` (every `Layer` implementation is well typed: results carry API-built environments with
@@ -202,14 +202,82 @@ theorem stepOk_kept (names : List Bytes) (pre post : Store) (n : Bytes) (L : LDe
           rw [heq, ht.1, ht.2]
         · cases ht
 
-/-- **Errors.** A failing callback (`.error .buildpack`), a metadata file that is no content-metadata document
-(`.error .genericMeta`) or a missing exec.d source is reported as that error. -/
+/-- **Errors.** A failing `create` or migration callback (`.error .buildpack`), a metadata file that is no
+content-metadata document (`.error .genericMeta`) or a missing exec.d source is reported as that error. -/
 theorem stepOk_error (names : List Bytes) (pre post : Store) (n : Bytes) (L : LDef) (obs : TObs) (log : List TCall)
     (strict : Bool) (h : tStepOk names pre (.handle n L) obs log post strict = true)
     (elog : List TCall) (k : ErrKind) (hexp : expectedT (Spec.classify (sget pre n) L.mt) L = some (elog, .error k)) :
     isErr obs k = true := by
   simp only [tStepOk, handleOk, hexp, Bool.and_eq_true] at h
   exact h.1.2
+
+/-- **Errors after the layer's callbacks were consulted.** When the table says `existing_layer_strategy` or `update`
+fails on a layer carrying metadata `m` (its own, or the replacement the migration callback asked for in this call): the
+buildpack error is reported and, judged from the layer after the call alone, the metadata file is a document with the
+types stored before and metadata `m`, the SBOMs are the previous ones and every entry of the layer directory is as
+before. In particular a requested metadata replacement is on disk although a later callback failed. -/
+theorem stepOk_declined (names : List Bytes) (pre post : Store) (n : Bytes) (L : LDef) (obs : TObs) (log : List TCall)
+    (strict : Bool) (h : tStepOk names pre (.handle n L) obs log post strict = true)
+    (elog : List TCall) (m : Option MetaTbl)
+    (hexp : expectedT (Spec.classify (sget pre n) L.mt) L = some (elog, .declined m)) :
+    obs = .err .buildpack ∧ ∃ d d0, (sget post n).dir = some d ∧ (sget pre n).dir = some d0 ∧
+      (sget post n).toml = some (.doc (storedTypes (sget pre n)) m) ∧
+      sameSboms (sget post n).sboms (sget pre n).sboms = true ∧ keepDirOk d0 d = true := by
+  simp only [tStepOk, handleOk, hexp, Bool.and_eq_true, beq_iff_eq] at h
+  obtain ⟨⟨_, he, h⟩, _⟩ := h
+  refine ⟨?_, ?_⟩
+  · cases obs with
+    | err k => simp only [isErr, beq_iff_eq] at he; rw [he]
+    | ok => simp [isErr] at he
+    | data m' a => simp [isErr] at he
+  · cases hd : (sget post n).dir with
+    | none => rw [hd] at h; simp at h
+    | some d =>
+      cases hd0 : (sget pre n).dir with
+      | none => rw [hd, hd0] at h; simp at h
+      | some d0 =>
+        rw [hd, hd0] at h
+        simp only [Bool.and_eq_true] at h
+        obtain ⟨⟨ht, hs⟩, hk⟩ := h
+        refine ⟨d, d0, rfl, rfl, ?_, hs, hk⟩
+        unfold docIs at ht
+        split at ht
+        · rename_i t' m'' heq
+          simp only [Bool.and_eq_true, beq_iff_eq] at ht
+          rw [heq, ht.1, ht.2]
+        · cases ht
+
+/-- **Migration is carried out whatever the later callbacks answer.** From every state satisfying the invariant: when
+the layer's metadata does not decode as the layer's metadata type, the migration callback answers
+`ReplaceMetadata m'`, and then `existing_layer_strategy` fails, or it answers `Update` and `update` fails, the call
+returns the buildpack error and the layer is left with the replacement carried out — metadata file = the stored types
+with metadata `m'`, directory entries and SBOMs as before — so no migration is due at the next call on that layer
+(it classifies as decodable with metadata `m'`). No condition about unknown metadata keys. -/
+theorem migration_survives_later_failure (s : Store) (hwf : WFT s) (n : Bytes) (L : LDef) (hL : LOk L)
+    (m : Option MetaTbl) (m' : MetaTbl) (hc : Spec.classify (sget s n) L.mt = .invalid m)
+    (hmg : L.migrate = .replace m')
+    (hfail : L.strategy = .fail ∨ (L.strategy = .update ∧ L.update = .fail)) :
+    (tStep s (.handle n L)).2.1 = .err .buildpack ∧
+    ∃ d d0, (sget (tStep s (.handle n L)).1 n).dir = some d ∧ (sget s n).dir = some d0 ∧
+      (sget (tStep s (.handle n L)).1 n).toml = some (.doc (storedTypes (sget s n)) (some m')) ∧
+      sameSboms (sget (tStep s (.handle n L)).1 n).sboms (sget s n).sboms = true ∧ keepDirOk d0 d = true ∧
+      Spec.classify (sget (tStep s (.handle n L)).1 n) L.mt = .valid (some m') := by
+  have hcd : canDecode L.mt (some m') = true := by rw [← decodes_eq]; exact (hL.migrate m' hmg).1
+  have hexp : ∃ elog, expectedT (Spec.classify (sget s n) L.mt) L = some (elog, .declined (some m')) := by
+    rw [hc]
+    rcases hfail with hst | ⟨hst, hup⟩
+    · exact ⟨[.migrate m, .strategy (seenAs L.mt (some m'))], by simp [expectedT, hmg, hcd, afterValidT, hst]⟩
+    · exact ⟨[.migrate m, .strategy (seenAs L.mt (some m')), .update (seenAs L.mt (some m'))],
+        by simp [expectedT, hmg, hcd, afterValidT, hst, hup]⟩
+  obtain ⟨elog, hexp⟩ := hexp
+  have h := (tstep_ok [] [] s (.handle n L) hwf hL false (fun h => by cases h)).1
+  obtain ⟨hobs, d, d0, hd, hd0, ht, hs, hk⟩ := stepOk_declined [] s _ n L _ _ false h elog (some m') hexp
+  refine ⟨?_, d, d0, hd, hd0, ht, hs, hk, ?_⟩
+  · cases ho : (tStep s (.handle n L)).2.1 with
+    | err k => rw [ho] at hobs; simp only [TOut.observe, TObs.err.injEq] at hobs; rw [hobs]
+    | ok => rw [ho] at hobs; simp [TOut.observe] at hobs
+    | data m1 le => rw [ho] at hobs; simp [TOut.observe] at hobs
+  · simp only [Spec.classify, hd, ht, hcd, if_true]
 
 /-- **M4 (frame).** Every other layer of the universe — directory, metadata file, SBOMs — is exactly as before. -/
 theorem stepOk_others_untouched (names : List Bytes) (pre post : Store) (n : Bytes) (L : LDef) (obs : TObs)
@@ -261,5 +329,24 @@ example :
        [.strategy (some ⟨some 4, none⟩), .update (some ⟨some 4, none⟩)], [],
        [.strategy (some ⟨some 6, none⟩), .create true], [],
        [.migrate (some ⟨none, some 9⟩), .strategy (some ⟨some 7, none⟩)]] := by decide
+
+/-- the situation of `migration_survives_later_failure` occurs: a layer written with generic metadata `{w = 9}`, then
+handled twice by a `struct { v }` definition whose migration answers `ReplaceMetadata {v = 7}` and whose strategy
+callback fails (second variant: asks for update, and `update` fails): the first call migrates and fails with `{v = 7}`
+on disk (types as stored), the second call is asked about `{v = 7}` directly — no second migration -/
+example :
+    let a : Bytes := [97]
+    let Lw : LDef := { exLayer .generic .recreate .recreate with create := .ok { exResult with mdata := some ⟨none, some 9⟩ } }
+    let Lf : LDef := exLayer .versioned .fail (.replace ⟨some 7, none⟩)
+    let Lu : LDef := { exLayer .versioned .update (.replace ⟨some 7, none⟩) with update := .fail }
+    ((ttrace [] [.handle a Lw, .handle a Lf, .handle a Lf]).map (fun e => (e.log, (sget e.post a).toml))) =
+      [([.create true], some (.doc (some ⟨true, false, true⟩) (some ⟨none, some 9⟩))),
+       ([.migrate (some ⟨none, some 9⟩), .strategy (some ⟨some 7, none⟩)], some (.doc (some ⟨true, false, true⟩) (some ⟨some 7, none⟩))),
+       ([.strategy (some ⟨some 7, none⟩)], some (.doc (some ⟨true, false, true⟩) (some ⟨some 7, none⟩)))] ∧
+    ((ttrace [] [.handle a Lw, .restore, .handle a Lu, .handle a Lu]).map (fun e => (e.log, (sget e.post a).toml))) =
+      [([.create true], some (.doc (some ⟨true, false, true⟩) (some ⟨none, some 9⟩))),
+       ([], some (.doc none (some ⟨none, some 9⟩))),
+       ([.migrate (some ⟨none, some 9⟩), .strategy (some ⟨some 7, none⟩), .update (some ⟨some 7, none⟩)], some (.doc none (some ⟨some 7, none⟩))),
+       ([.strategy (some ⟨some 7, none⟩), .update (some ⟨some 7, none⟩)], some (.doc none (some ⟨some 7, none⟩)))] := by decide
 
 end CnbVerif.C02
